@@ -132,18 +132,6 @@ def run(project, chk):
           code_expr=code, inline=False, call_map={"ratio": RATIO_Q})
 
     # F6: the status strings of the bulk API are is_readable of the colour that is *returned* (C12's B3/B4, here as a discharged assumption)
-    chk.rule("F6", "make_readable_bulk's status is is_readable.lower() of ColorPair(returned colour, the entry's background, the entry's size) (the status rule of C12, discharged here)")
-    from sa.report import Check as _Check
-    import checks.C12 as _C12
-    sub = _Check("C12", chk.tier, quiet=True)
-    try:
-        _C12.run(project, sub)
-    except AnalysisError:
-        pass
-    shown = 0
-    for f in sub.findings:
-        if f.rule in ("B3", "B4") and ("status" in f.message or "label" in f.message):
-            shown += 1
-            chk.fail("F6", f.function, f.construct, f.loc, f.message)
-    if not shown:
-        chk.ok("F6", "core.cm_colors.make_readable_bulk", "the bulk status is the label of the returned colour at the entry's own background and size", "C12's B3 status rule re-run")
+    from checks._borrow import borrow
+    borrow(project, chk, "C12", {"B3", "B4"}, "F6", "make_readable_bulk's status is is_readable.lower() of ColorPair(returned colour, the entry's background, the entry's size) (the status rule of C12, discharged here)",
+           only=lambda f: "status" in f.message or "label" in f.message)
